@@ -55,6 +55,7 @@ type claimT struct {
 	Amt     int64  `json:"amt"`
 	Rcv     int    `json:"rcv"`
 	Compass int    `json:"compass"`
+	Batch   bool   `json:"batch,omitempty"` // a MsgBatchSendToRemoteClaim (batch nonce = amt) instead of a deposit
 }
 
 type opT struct {
@@ -103,6 +104,21 @@ func (e *env) orch(v int) string {
 	return sdk.AccAddress(b).String()
 }
 
+func (e *env) mkBatchClaim(v int, c *claimT) *types.MsgBatchSendToRemoteClaim {
+	o := e.orch(v)
+	return &types.MsgBatchSendToRemoteClaim{
+		EventNonce:       c.Nonce,
+		EthBlockHeight:   c.Height,
+		BatchNonce:       uint64(c.Amt),
+		TokenContract:    tokReg,
+		ChainReferenceId: chain,
+		Orchestrator:     o,
+		Metadata:         valsettypes.MsgMetadata{Creator: o, Signers: []string{o}},
+		SkywayNonce:      c.Nonce,
+		CompassId:        compassIDs[c.Compass],
+	}
+}
+
 func (e *env) mkClaim(v int, c *claimT) *types.MsgSendToPalomaClaim {
 	tok := tokUnreg
 	if c.Tok {
@@ -125,7 +141,13 @@ func (e *env) mkClaim(v int, c *claimT) *types.MsgSendToPalomaClaim {
 }
 
 func (e *env) hashOf(c *claimT) (uint64, []byte) {
-	h, err := e.mkClaim(0, c).ClaimHash()
+	var h []byte
+	var err error
+	if c.Batch {
+		h, err = e.mkBatchClaim(0, c).ClaimHash()
+	} else {
+		h, err = e.mkClaim(0, c).ClaimHash()
+	}
 	if err != nil {
 		panic(err)
 	}
@@ -146,6 +168,7 @@ type attObs struct {
 	RawVotes []string
 	Observed bool
 	Claim    *types.MsgSendToPalomaClaim
+	Compass  string
 }
 
 type snap struct {
@@ -179,7 +202,7 @@ func (e *env) observe(ctx sdk.Context) snap {
 			panic(err)
 		}
 		hash, _ := cl.ClaimHash()
-		a := attObs{Nonce: cl.GetSkywayNonce(), H: binary.BigEndian.Uint64(hash[:8]) >> 1, Hash: string(hash), Observed: att.Observed, RawVotes: att.Votes}
+		a := attObs{Nonce: cl.GetSkywayNonce(), H: binary.BigEndian.Uint64(hash[:8]) >> 1, Hash: string(hash), Observed: att.Observed, RawVotes: att.Votes, Compass: cl.GetCompassID()}
 		a.Claim, _ = cl.(*types.MsgSendToPalomaClaim)
 		for _, v := range att.Votes {
 			ix, ok := e.valIx[v]
@@ -249,9 +272,16 @@ func (e *env) apply(ctx sdk.Context, o opT) (ok bool, errText string) {
 	var err error
 	switch o.Kind {
 	case "vote":
-		msg := e.mkClaim(o.V, o.Claim)
-		if err = msg.ValidateBasic(); err == nil { // baseapp runs ValidateBasic before the handler
-			err = deliver(ctx, func(c sdk.Context) error { _, er := e.ms.SendToPalomaClaim(c, msg); return er })
+		if o.Claim.Batch {
+			msg := e.mkBatchClaim(o.V, o.Claim)
+			if err = msg.ValidateBasic(); err == nil {
+				err = deliver(ctx, func(c sdk.Context) error { _, er := e.ms.BatchSendToRemoteClaim(c, msg); return er })
+			}
+		} else {
+			msg := e.mkClaim(o.V, o.Claim)
+			if err = msg.ValidateBasic(); err == nil { // baseapp runs ValidateBasic before the handler
+				err = deliver(ctx, func(c sdk.Context) error { _, er := e.ms.SendToPalomaClaim(c, msg); return er })
+			}
 		}
 	case "tally":
 		func() { // EndBlocker recovers panics; it runs on the block context
@@ -303,6 +333,9 @@ func (e *env) apply(ctx sdk.Context, o opT) (ok bool, errText string) {
 
 // ---- Coq printers ----
 func coqClaim(c *claimT, h int) string {
+	if c.Batch { // the handler finds no such batch: nothing is applied
+		return fmt.Sprintf("(mkClaim %s %d %s %d 0 %s false)", emit.ZU(c.Nonce), h, emit.ZU(c.Height), c.Compass, emit.ZI(c.Amt))
+	}
 	return fmt.Sprintf("(mkClaim %s %d %s %d %d %s %s)", emit.ZU(c.Nonce), h, emit.ZU(c.Height), c.Compass, c.Rcv, emit.ZI(c.Amt), emit.Bool(c.Tok))
 }
 
@@ -434,6 +467,10 @@ func (or *oracle) step(e *env, ctx sdk.Context, o opT, ok bool, pre, post snap) 
 		if !(100*sum > 66*total) {
 			out = append(out, viol{"C02:observed-without-66pct-distinct",
 				fmt.Sprintf("claim at nonce %d observed with Votes=%v: distinct voters hold %d of %d (needs > 66%%)", a.Nonce, a.Votes, sum, total)})
+		}
+		if pre.Compass > 0 && a.Compass != compassIDs[pre.Compass] {
+			out = append(out, viol{"C02:other-deployment-claim-applied",
+				fmt.Sprintf("claim at nonce %d names compass %q but the bridge deployment is %q", a.Nonce, a.Compass, compassIDs[pre.Compass])})
 		}
 		key := [2]uint64{uint64(or.epoch), a.Nonce}
 		if or.seen[key] {
@@ -598,6 +635,9 @@ func variant(n uint64, k int, compass int) *claimT {
 		c.Height += 5
 	case 4:
 		c.Height = 1 // far below everything observed before
+	case 5:
+		c.Batch = true // executed-batch claim for a batch that does not exist: observed, handler fails
+		c.Amt = int64(1 + n%3)
 	}
 	return c
 }
@@ -620,7 +660,7 @@ func (e *env) structured(r *rand.Rand, hostile bool) []opT {
 		if r.Intn(100) < 70 {
 			return 0
 		}
-		return 1 + r.Intn(4)
+		return 1 + r.Intn(5)
 	}
 	for len(ops) < n {
 		x := r.Intn(100)
@@ -811,8 +851,8 @@ func loadCorpus(t *testing.T) map[string][]opT {
 func TestCorr(t *testing.T) {
 	run := emit.Start("C02", 400)
 	run.Rule("one case = one history on the real skyway keeper (SetupFiveValChain): SetPowers first, then 6-32 operations: " +
-		"SendToPalomaClaim votes (ValidateBasic + msg server in a cache context) by 5 validators for up to 5 competing claims per nonce " +
-		"(other amount/receiver, unregistered token, other height, height below the last observed one, other compass id), bursts of " +
+		"SendToPalomaClaim votes (ValidateBasic + msg server in a cache context) by 5 validators for up to 6 competing claims per nonce " +
+		"(other amount/receiver, unregistered token, other height, height below the last observed one, a BatchSendToRemoteClaim for an unknown batch, other compass id), bursts of " +
 		"followers, attestationTally / pruneAttestations (hooks), power changes between vote and tally (equal, 34%, 66/34, 67%, zero powers, " +
 		"non-voting power in the total), UpdateValidatorNoncesToLatest, governance nonce override to 0 / cursor / cursor-1 / higher / >1000, " +
 		"chain activation with a new compass id; ~15% threshold histories (k voters holding exactly floor(66T/100)-1, +0, +1 of T, T from 3 to 10^6); ~15% hostile histories (non-contiguous nonces, nonce 0, unknown orchestrators, re-votes). " +
